@@ -313,13 +313,19 @@ mod cdn {
         let head = String::from_utf8_lossy(&buf);
         let path = head.split_whitespace().nth(1).unwrap_or("");
         let hex_key = path.rsplit('/').next().unwrap_or("").to_string();
+        // One critical section at arrival: the position of this request in the row's script and the log
+        // entry are fixed before a single byte is answered, so a client that comes back quickly (a
+        // descheduled server task under load) can never be served the same script position twice.
+        // `sent` is taken BEFORE the bytes leave: the client cannot have the answer earlier than this
+        // instant, so "next arrival - sent" is never shorter than the time the client waited in between.
         let (code, ra, idx) = {
-            let g = rows.lock().unwrap();
-            match g.get(&hex_key) {
+            let mut g = rows.lock().unwrap();
+            match g.get_mut(&hex_key) {
                 Some(r) => {
                     let idx = r.log.len();
                     // beyond the script: a definitive answer, so that a runaway client stops
                     let o = r.resp.get(idx).cloned().unwrap_or(json!({"code": 410, "ra": "none"}));
+                    r.log.push((arrival, Instant::now()));
                     (o["code"].as_u64().unwrap_or(500), o["ra"].as_str().unwrap_or("none").to_string(), idx)
                 }
                 None => (404, "none".to_string(), 0),
@@ -333,24 +339,18 @@ mod cdn {
         resp.push_str("\r\n");
         let mut bytes = resp.into_bytes();
         bytes.extend_from_slice(&body);
-        // taken BEFORE the bytes leave: the client cannot have the answer earlier than this instant, so
-        // "next arrival - sent" is never shorter than the time the client waited between the two
-        let sent = Instant::now();
         let _ = sock.write_all(&bytes).await;
         let _ = sock.flush().await;
-        if let Some(r) = rows.lock().unwrap().get_mut(&hex_key) {
-            r.log.push((arrival, sent));
-        }
         let _ = sock.shutdown().await;
     }
 
-    pub fn run(programs: Vec<Value>, out: &mut Out, par: usize) -> (u64, u64) {
+    pub fn run(programs: Vec<Value>, out: &mut Out, par: usize, patience_s: u64) -> (u64, u64) {
         let rt = tokio::runtime::Builder::new_multi_thread().worker_threads(4).enable_all().build().expect("runtime");
         let rows: Rows = Arc::new(Mutex::new(HashMap::new()));
         let dir = tempfile::tempdir().expect("tempdir");
         let dflt = pol_json(&RetryPolicy::default());
         let mut hangs = 0u64;
-        let results: Vec<(String, Option<(Instant, Value)>)> = rt.block_on(async {
+        let results: Vec<(String, Instant, Value)> = rt.block_on(async {
             let listener = tokio::net::TcpListener::bind("127.0.0.1:0").await.expect("bind loopback");
             let host = format!("127.0.0.1:{}", listener.local_addr().unwrap().port());
             let rows2 = rows.clone();
@@ -386,9 +386,10 @@ mod cdn {
                     let key = hex::decode(&hex_key).expect("hex");
                     let start = Instant::now();
                     let fut = std::panic::AssertUnwindSafe(client.download(&endpoint, ContentType::Data, &key));
-                    let r = tokio::time::timeout(Duration::from_secs(90), futures::FutureExt::catch_unwind(fut)).await;
+                    let r = tokio::time::timeout(Duration::from_secs(patience_s), futures::FutureExt::catch_unwind(fut)).await;
                     let res = match r {
-                        Err(_) => return (hex_key, None),
+                        // not back after `patience_s` of real time: recorded as still waiting
+                        Err(_) => json!({"kind": "waiting", "code": 0, "h": -1, "id": 0}),
                         Ok(Err(_)) => json!({"kind": "panic", "code": 0, "h": -1, "id": 0}),
                         Ok(Ok(Ok(body))) => {
                             // which scripted response does the returned body belong to (0 = none of them)
@@ -397,7 +398,7 @@ mod cdn {
                         }
                         Ok(Ok(Err(e))) => describe(&Err(e)),
                     };
-                    (hex_key, Some((start, res)))
+                    (hex_key, start, res)
                 }));
             }
             let mut v = vec![];
@@ -407,27 +408,24 @@ mod cdn {
             v
         });
         let g = rows.lock().unwrap();
-        for (hex_key, r) in &results {
+        for (hex_key, start, res) in &results {
             let row = &g[hex_key];
             out.ev(&json!({"op": "new", "fam": "cdn", "clock": "real", "pol": dflt}));
             let mut seq = 0u64;
-            let mut prev_end = r.as_ref().map(|x| x.0);
+            let mut prev_end = *start;
             for (i, (arr, sent)) in row.log.iter().enumerate() {
                 seq += 1;
-                let gap = prev_end.map_or(0, |p| sat_ms(arr.saturating_duration_since(p)));
+                let gap = sat_ms(arr.saturating_duration_since(prev_end));
                 let o = row.resp.get(i).cloned().unwrap_or(json!({"code": 410, "ra": "none"}));
                 out.ev(&json!({"op": "call", "seq": seq, "i": i + 1, "gap": gap,
                                "o": {"kind": "Status", "code": o["code"], "ra": o["ra"], "h": -1, "dur": 0}}));
-                prev_end = Some(*sent);
+                prev_end = *sent;
             }
             seq += 1;
-            match r {
-                Some((_, res)) => out.ev(&json!({"op": "ret", "seq": seq, "res": res})),
-                None => {
-                    hangs += 1;
-                    out.ev(&json!({"op": "hang", "seq": seq, "res": {"outcome": "hang"}}));
-                }
+            if res["kind"] == "waiting" {
+                hangs += 1;
             }
+            out.ev(&json!({"op": "ret", "seq": seq, "res": res}));
         }
         (results.len() as u64, hangs)
     }
@@ -479,7 +477,7 @@ fn main() {
     let mut out = Out::from_arg(arg(&args, "--out").as_ref());
     if let Some(p) = arg(&args, "--cdn") {
         let programs = read_programs(&p);
-        let (n, hangs) = cdn::run(programs, &mut out, arg_u64(&args, "--par", 32) as usize);
+        let (n, hangs) = cdn::run(programs, &mut out, arg_u64(&args, "--par", 32) as usize, arg_u64(&args, "--patience", 60));
         out.flush();
         eprintln!("{}", json!({"programs": n, "events": out.events, "hangs": hangs, "skipped": 0}));
         return;
